@@ -252,12 +252,22 @@ def check_splice(facts):
         sl = slices_of_text(b)
         probs = []
         names = {b.local_name(l): l for l in range(len(b.locals)) if b.local_name(l)}
-        m_l = names.get("m")
+        def by_type(pred):
+            c = [l for l in range(b.argc + 1, len(b.locals)) if b.local_name(l) and pred(l)]
+            return c[0] if len(c) == 1 else None
+        # the match binding, the running cursor and the output buffer are found by role (type / initialiser), not by name
+        m_l = by_type(lambda l: b.local_ty(l) == "api::Match")
+        if m_l is None:
+            m_l = names.get("m")
         pushes = [(bb, t) for bb, t in b.iter_calls() if (t.get("callee") or "").endswith("String::push_str")]
         if multi:
-            le = names.get("last_end")
+            le = by_type(lambda l: b.local_ty(l) == "usize" and any(
+                d[2] == "assign" and d[3]["rv"]["k"] == "use" and d[3]["rv"]["op"].get("k") == "const" and d[3]["rv"]["op"].get("int") == 0
+                for d in b.defs().get(l, [])))
+            if le is None:
+                le = names.get("last_end")
             if le is None or m_l is None:
-                r.fail(key, "locals `last_end` / `m` not found (unrecognised shape)", facts.loc(fn))
+                r.fail(key, "the cursor (a usize initialised to 0) / the match binding (an api::Match) were not found (unrecognised shape)", facts.loc(fn))
                 continue
             pre = [s for s in sl if s[1] == "Range"]
             post = [s for s in sl if s[1] == "RangeFrom"]
@@ -327,7 +337,9 @@ def check_splice(facts):
                             probs.append("an iteration of the loop over matches can reach the next one without %s (a `continue`/early exit "
                                          "skips a match: it is left unreplaced)" % what)
             # the only value returned is `result`, after the tail was pushed
-            res_l = names.get("result")
+            res_l = by_type(lambda l: b.local_ty(l).replace("alloc::", "std::") == "std::string::String")
+            if res_l is None:
+                res_l = names.get("result")
             rets = [(bi, i, s) for bi, i, s in b.iter_stmts() if s["k"] == "assign" and s["pl"]["l"] == 0 and not s["pl"]["p"]]
             rets_c = [bb for bb, t in b.iter_calls() if t["dest"]["l"] == 0 and not t["dest"]["p"]]
             if rets_c or len(rets) != 1 or not (rets[0][2]["rv"]["k"] == "use" and rets[0][2]["rv"]["op"]["k"] == "move"
